@@ -60,13 +60,33 @@ pub fn history_case(g: &mut Gen, cfg: &PicCfg) -> Verdict {
     // negative case: a predicted picture with nothing to predict from must be rejected
     if g.chance(1, 14) {
         let like = gen_header(g, mode, version, size, PicType::I);
+        // the decoder is fresh - or, in Sorenson mode, has so far decoded nothing but disposable
+        // pictures made of intra macroblocks (which are shown but are no reference)
+        let mut only_disposable = 0;
+        if mode == Mode::Sorenson && g.chance(1, 2) {
+            for _ in 0..g.range(1, 2) {
+                let mut d = gen_intra_pic_with(g, cfg, mode, version, size);
+                d.hdr.ptype = PicType::D;
+                match decode_bytes(&mut st, &encode_pic(&d)) {
+                    Outcome::Ok => only_disposable += 1,
+                    o => return Verdict::fail(format!("disposable picture made of intra macroblocks, first picture of a decoder, not decoded: {}", o.short())),
+                }
+            }
+        }
+        let before = last_digest(&st);
         let pic = gen_inter_pic(g, cfg, &like, PicType::P, true);
-        g.describe(|| json!({"no_reference": true, "picture": describe_pic(&pic)}));
+        g.describe(|| json!({"no_reference": true, "disposable_pictures_before": only_disposable, "picture": describe_pic(&pic)}));
         if !needs_prediction(&pic) {
             return Verdict::Excluded("P picture without reference that happens to be all-intra");
         }
         let bytes = encode_pic(&pic);
         return match decode_bytes(&mut st, &bytes) {
+            Outcome::Err(_) if only_disposable > 0 => {
+                if last_digest(&st) != before {
+                    return Verdict::fail("rejected P picture changed the most recent picture");
+                }
+                Verdict::pass_l(true, fnv64(&bytes) ^ 0x77, vec!["P after disposable pictures only (no reference) rejected", mode_label(&pic.hdr)])
+            }
             Outcome::Err(_) => {
                 if st.get_last_picture().is_some() {
                     return Verdict::fail("rejected P picture left a most-recent picture behind");
@@ -109,6 +129,25 @@ pub fn history_case(g: &mut Gen, cfg: &PicCfg) -> Verdict {
     let mut agg = ModelStats::default();
     let mut tolerated = 0;
     for j in 0..k {
+        if g.chance(1, 6) {
+            // a rejected picture in between (intra or predicted carrier, any failure kind): the
+            // reference stays what it was, the next picture is predicted from it as if nothing came
+            use crate::hist::*;
+            let kinds: &[BadKind] = if mode == Mode::Sorenson { &BAD_KINDS_SORENSON } else { &BAD_KINDS_STANDARD };
+            let kind = *g.pick(kinds);
+            let inter = g.bool();
+            let tr = g.byte();
+            let b = bad_picture(g, cfg, &ipic.hdr, kind, inter, tr);
+            let before = last_digest(&st);
+            match decode_bytes(&mut st, &b) {
+                Outcome::Err(_) => {}
+                o => return Verdict::fail(format!("picture that must be rejected ({}) between predicted pictures gave {}", kind.label(), o.short())),
+            }
+            if last_digest(&st) != before {
+                return Verdict::fail(format!("rejected picture ({}) changed the most recent picture", kind.label()));
+            }
+            labels.push("a rejected picture between predicted pictures");
+        }
         let pic = gen_inter_pic(g, cfg, &ipic.hdr, PicType::P, true);
         if g.want_desc {
             desc.push(describe_pic(&pic));
